@@ -186,6 +186,10 @@ def execCH (ms : MacroSem) (subs : CSubEnv) : Nat → CStmt → MState → Excep
         match lhs with
         | .var n _ => .ok { σ with locals := setLocal σ.locals n v }
         | .reg n k _ => writeRegC σ n k v
+        | .imm l _ => (match v with
+            -- the immediate is an ordinary variable of the behaviour, initialised from the encoding
+            | .bv _ x => .ok { σ with imm := fun q => if q == l then x.toNat else σ.imm q }
+            | _ => .error (.sort "immediate write"))
         | _ => .error (.undef "assignment target")
     | .chain lhs1 lhs2 op2 e => do
         let σ1 ← execCH ms subs fuel (.assign lhs2 op2 e) σ
